@@ -24,6 +24,7 @@
 #include <fcntl.h>
 #include <filesystem>
 #include <sys/mman.h>
+#include <sys/resource.h>
 #include <sys/stat.h>
 #include <sys/syscall.h>
 #include <sys/time.h>
@@ -107,6 +108,11 @@ struct Sim
     long bypass = 0;
     bool dirseek_max = true;
     std::string cwd = "/sim";
+    // persistent condition of the environment (no search permission, name too long, symlink loop...):
+    // every mkdir/stat/lstat/open on a path at or below cond_prefix fails with cond_errno
+    std::string cond_prefix;
+    int cond_errno = 0;
+    long cond_fired = 0;
 };
 Sim g;
 
@@ -185,6 +191,17 @@ void init_real()
     real.mkdir = (decltype(real.mkdir))dlsym(RTLD_NEXT, "mkdir");
     real.open = (decltype(real.open))dlsym(RTLD_NEXT, "open");
     real.openat = (decltype(real.openat))dlsym(RTLD_NEXT, "openat");
+}
+
+bool under_condition(const std::string& abs)
+{
+    if(!g.cond_errno || g.cond_prefix.empty()) return false;
+    if(abs == g.cond_prefix || abs.rfind(g.cond_prefix + "/", 0) == 0)
+    {
+        g.cond_fired++;
+        return true;
+    }
+    return false;
 }
 
 // Returns the fault to apply to this call (or nullptr) and records the call.
@@ -322,6 +339,13 @@ FILE* fopen64(const char* path, const char* mode)
     if(!g.active || !in_sim(abs)) return real.fopen64(path, mode);
     const bool wr = std::strchr(mode, 'w') || std::strchr(mode, 'a') || std::strchr(mode, '+');
     FaultSpec* f = on_call(wr ? K_OPENW : K_OPENR, abs);
+    if(under_condition(abs))
+    {
+        note_hard(std::string("open(") + abs + ") environment condition errno " + std::to_string(g.cond_errno), wr);
+        sim::stats().count("fault.fired.condition.open");
+        errno = g.cond_errno;
+        return nullptr;
+    }
     if(yanked())
     {
         note_hard(std::string("open(") + abs + ") after yank", wr);
@@ -358,7 +382,8 @@ FILE* fopen64(const char* path, const char* mode)
     }
     else if(it == g.fs.end())
     {
-        note_hard("open(" + abs + ") natural ENOENT", false);
+        // a missing *input* is a failed read; probing for an existing output is ordinary behaviour
+        if(abs.rfind("/sim/in/", 0) == 0 || abs == "/sim/in") note_hard("open(" + abs + ") natural ENOENT", false);
         errno = ENOENT;
         return nullptr;
     }
@@ -502,6 +527,13 @@ int mkdir(const char* path, mode_t mode)
     std::string abs = norm(path);
     if(!g.active || !in_sim(abs)) return real.mkdir(path, mode);
     FaultSpec* f = on_call(K_MKDIR, abs);
+    if(under_condition(abs))
+    {
+        note_hard("mkdir(" + abs + ") environment condition errno " + std::to_string(g.cond_errno), true);
+        sim::stats().count("fault.fired.condition.mkdir");
+        errno = g.cond_errno;
+        return -1;
+    }
     if(yanked())
     {
         note_hard("mkdir(" + abs + ") after yank", true);
@@ -539,7 +571,25 @@ int mkdir(const char* path, mode_t mode)
 
 static int sim_stat(const std::string& abs, struct stat* st)
 {
-    on_call(K_STAT, abs);
+    FaultSpec* f = on_call(K_STAT, abs);
+    if(under_condition(abs))
+    {
+        g.fired_soft.push_back("stat(" + abs + ") environment condition errno " + std::to_string(g.cond_errno));
+        sim::stats().count("fault.fired.condition.stat");
+        errno = g.cond_errno;
+        return -1;
+    }
+    if(f)
+    {
+        // a failing stat() alone is not "a directory creation, file open or write" failing: libstdc++
+        // may go on and succeed, so this is a soft fault (either ending is fine, exit 0 still implies
+        // complete files)
+        f->fired = true;
+        sim::stats().count("fault.fired.stat." + f->outcome);
+        g.fired_soft.push_back("stat(" + abs + ") " + f->outcome);
+        errno = errno_of(f->outcome);
+        return -1;
+    }
     if(int e = check_parent(abs))
     {
         errno = e;
@@ -612,6 +662,13 @@ int openat(int dirfd, const char* path, int flags, ...)
 namespace
 {
 std::string g_prop = "C09";
+// structural predicate of the staged input, evaluated before a run: some length="N" with N >= 10^6
+// (sbeppc materialises constants / arrays of that length). Used to keep that known finding narrow.
+bool g_huge_length = false;
+std::string resource_suffix()
+{
+    return g_huge_length ? ":huge-length-attribute" : "";
+}
 int g_saved_stdout = -1;
 void restore_stdout()
 {
@@ -666,7 +723,7 @@ void on_fatal_signal(int sig)
         return;
     }
     g.active = false;
-    sim::crash_report(g_prop + ":CRASH:" + name, sig == SIGVTALRM ? "sbeppc exceeded its CPU budget" : std::string("sbeppc died with ") + name + (sig == SIGSEGV ? " (stack overflow if recursion is unbounded)" : ""));
+    sim::crash_report(g_prop + ":CRASH:" + name + (sig == SIGVTALRM ? resource_suffix() : ""), sig == SIGVTALRM ? "sbeppc exceeded its CPU budget" : std::string("sbeppc died with ") + name + (sig == SIGSEGV ? " (stack overflow if recursion is unbounded)" : ""));
 }
 
 void install_handlers()
@@ -732,6 +789,7 @@ RunOutcome run_sbeppc(const std::vector<std::string>& args, const std::vector<Fa
     g.fired_soft.clear();
     g.fired_hard_output = g.fired_hard_input = false;
     g.bypass = 0;
+    g.cond_fired = 0;
     for(auto& kv : g.fs) kv.second.created_by_run = false;
     g.active = true;
     set_budget_ms(20000);
@@ -1000,6 +1058,92 @@ void apply_mutation(const Op& op)
             for(size_t i = s; i < std::min(d.size(), s + kSector); i++) d[i] = i < o->second.size() ? o->second[i] : ' ';
         }
     }
+    else if(n == "retarget" || n == "attrdel" || n == "extreme")
+    {
+        // token-level edits of the stored text: every  name="value"  occurrence
+        struct Attr
+        {
+            size_t name_b, name_e, val_b, val_e; // [name_b,name_e) name, [val_b,val_e) value without quotes
+        };
+        std::vector<Attr> attrs;
+        for(size_t i = 0; i + 2 < d.size(); i++)
+        {
+            if(d[i] != '=' || d[i + 1] != '"') continue;
+            size_t nb = i;
+            while(nb > 0 && (std::isalnum((unsigned char)d[nb - 1]) || d[nb - 1] == ':' || d[nb - 1] == '_')) nb--;
+            size_t ve = d.find('"', i + 2);
+            if(nb == i || ve == std::string::npos) continue;
+            attrs.push_back({nb, i, i + 2, ve});
+            i = ve;
+        }
+        if(attrs.empty()) return;
+        auto name_of = [&](const Attr& a) { return d.substr(a.name_b, a.name_e - a.name_b); };
+        if(n == "attrdel")
+        {
+            const Attr& a = attrs[(size_t)(op.uarg(0) % attrs.size())];
+            d.erase(a.name_b, a.val_e + 1 - a.name_b);
+        }
+        else if(n == "retarget")
+        {
+            // a reference-valued attribute gets the name of some other entity of the file
+            std::vector<size_t> refs, names;
+            for(size_t k = 0; k < attrs.size(); k++)
+            {
+                const std::string nm = name_of(attrs[k]);
+                if(nm == "type" || nm == "dimensionType" || nm == "encodingType" || nm == "headerType" || nm == "valueRef" || nm == "primitiveType") refs.push_back(k);
+                if(nm == "name") names.push_back(k);
+            }
+            if(refs.empty() || names.empty()) return;
+            const Attr& r = attrs[refs[(size_t)(op.uarg(0) % refs.size())]];
+            const Attr& s = attrs[names[(size_t)(op.uarg(1) % names.size())]];
+            const std::string v = d.substr(s.val_b, s.val_e - s.val_b);
+            d.replace(r.val_b, r.val_e - r.val_b, v);
+        }
+        else
+        {
+            // extreme numbers in numeric attributes
+            std::vector<size_t> nums;
+            for(size_t k = 0; k < attrs.size(); k++)
+            {
+                bool dig = attrs[k].val_e > attrs[k].val_b;
+                for(size_t j = attrs[k].val_b; j < attrs[k].val_e; j++)
+                    if(!std::isdigit((unsigned char)d[j])) dig = false;
+                if(dig) nums.push_back(k);
+            }
+            if(nums.empty()) return;
+            static const char* ext[] = {"0", "-1", "255", "256", "65535", "65536", "2147483647", "2147483648", "4294967295", "4294967296", "9223372036854775807", "9223372036854775808", "18446744073709551615", "18446744073709551616", "99999999999999999999999999999999", "1e400", "0x10", "+5", " 7", "7 ", ""};
+            const Attr& a = attrs[nums[(size_t)(op.uarg(0) % nums.size())]];
+            d.replace(a.val_b, a.val_e - a.val_b, ext[op.uarg(1) % (sizeof(ext) / sizeof(ext[0]))]);
+        }
+    }
+    else if(n == "linedup" || n == "lineswap" || n == "linedel")
+    {
+        std::vector<std::pair<size_t, size_t>> lines; // [b,e) incl. newline
+        size_t b = 0;
+        while(b < d.size())
+        {
+            size_t e = d.find('\n', b);
+            e = e == std::string::npos ? d.size() : e + 1;
+            lines.push_back({b, e});
+            b = e;
+        }
+        if(lines.size() < 3) return;
+        const size_t i = (size_t)(op.uarg(0) % lines.size()), j = (size_t)(op.uarg(1) % lines.size());
+        const std::string li = d.substr(lines[i].first, lines[i].second - lines[i].first);
+        if(n == "linedup")
+            d.insert(lines[i].second, li);
+        else if(n == "linedel")
+            d.erase(lines[i].first, lines[i].second - lines[i].first);
+        else if(i != j)
+        {
+            const std::string lj = d.substr(lines[j].first, lines[j].second - lines[j].first);
+            const size_t lo = std::min(i, j), hi = std::max(i, j);
+            const std::string& slo = lo == i ? li : lj;
+            const std::string& shi = hi == i ? li : lj;
+            d.replace(lines[hi].first, shi.size(), slo);
+            d.replace(lines[lo].first, slo.size(), shi);
+        }
+    }
     else if(n == "digit" || n == "letter" || n == "valbyte")
     {
         // class-preserving corruption of the k-th byte of that class
@@ -1203,10 +1347,14 @@ Result exec_plan(const Plan& plan)
     Result res;
     sim::Hasher fp;
     fs_reset();
+    g.cond_errno = 0;
+    g.cond_prefix.clear();
+    g.dirseek_max = true;
     PendingRun pr;
     std::set<std::string> known_sigs;
+    for(const std::string& src : {plan.get("known"), sim::options().count("known") ? sim::options()["known"] : std::string()})
     {
-        std::istringstream ks(plan.get("known"));
+        std::istringstream ks(src);
         std::string t;
         while(std::getline(ks, t, ',')) known_sigs.insert(t);
     }
@@ -1244,6 +1392,12 @@ Result exec_plan(const Plan& plan)
             pr.diskfull = op.arg(0);
         else if(n == "dirseek")
             g.dirseek_max = op.arg(0) != 0;
+        else if(n == "cond")
+        {
+            // environment condition for the following runs: @ERRNO @path-prefix ("" clears)
+            g.cond_errno = op.sarg(0).empty() ? 0 : errno_of(op.sarg(0));
+            g.cond_prefix = op.sarg(1).empty() ? "" : norm(op.sarg(1).c_str());
+        }
         else if(n == "put")
         {
             Node nd;
@@ -1341,6 +1495,22 @@ Result exec_plan(const Plan& plan)
             std::map<std::string, std::string> before;
             for(auto& kv : g.fs)
                 if(!kv.second.dir) before[kv.first] = kv.second.data;
+            g_huge_length = false;
+            for(auto& kv : g.fs)
+            {
+                if(kv.second.dir || kv.first.rfind("/sim/in/", 0) != 0) continue;
+                const std::string& d = kv.second.data;
+                for(size_t at = d.find("length=\""); at != std::string::npos; at = d.find("length=\"", at + 1))
+                {
+                    size_t k = at + 8, digits = 0;
+                    while(k < d.size() && std::isdigit((unsigned char)d[k]))
+                    {
+                        k++;
+                        digits++;
+                    }
+                    if(digits >= 7) g_huge_length = true;
+                }
+            }
             perturb_heap(pr.heap);
             RunOutcome ro = run_sbeppc(argv_variant(argv_v, schema, outv), pr.faults, pr.yank, pr.diskfull);
             perturb_heap(0);
@@ -1372,6 +1542,14 @@ Result exec_plan(const Plan& plan)
                 std::string k = ro.kind;
                 for(auto& c : k)
                     if(c == ' ') c = '_';
+                if(k == "UNCAUGHT:std::bad_alloc" || k == "UNCAUGHT:std::length_error") k += resource_suffix();
+                if(known_sigs.count(prop + ":" + k))
+                {
+                    if(std::find(res.known.begin(), res.known.end(), prop + ":" + k) == res.known.end()) res.known.push_back(prop + ":" + k);
+                    sim::stats().count("known." + prop + ":" + k);
+                    pr = PendingRun{};
+                    continue;
+                }
                 fail(k, "an exception escaped main(): the shipped binary calls std::terminate" + ctx);
                 break;
             }
@@ -1552,6 +1730,9 @@ const std::vector<EnumPoint>& enumeration(const std::string& tier)
                 add("SHORT", t.len / 2);
                 add("EINTR");
                 break;
+            case K_STAT:
+                for(auto e : {"EACCES", "EIO", "ENAMETOOLONG", "ELOOP"}) add(e);
+                break;
             default: break;
             }
         }
@@ -1596,7 +1777,7 @@ Plan gen_c20(u64 seed, const std::string& tier)
     auto schemas = tier_schemas(tier, "C20");
     const int nruns = (int)wl.range(1, 4);
     // swarm: which fault kinds are enabled in this plan
-    const bool en_single = fl.chance(2, 3), en_yank = fl.chance(1, 4), en_full = fl.chance(1, 4), en_heap = fl.chance(1, 2), en_prefill = fl.chance(1, 3);
+    const bool en_single = fl.chance(2, 3), en_yank = fl.chance(1, 4), en_full = fl.chance(1, 4), en_heap = fl.chance(1, 2), en_prefill = fl.chance(1, 3), en_cond = fl.chance(1, 6);
     long outv = (long)wl.below(5);
     for(int i = 0; i < nruns; i++)
     {
@@ -1611,6 +1792,19 @@ Plan gen_c20(u64 seed, const std::string& tier)
             p.ops.push_back(pf);
         }
         const bool last = i + 1 == nruns;
+        if(en_cond)
+        {
+            // a persistent condition (no search permission, name too long, symlink loop) on the output root,
+            // lifted again before the last run of the history
+            Op c;
+            c.name = "cond";
+            static const char* errs[] = {"EACCES", "ENAMETOOLONG", "ELOOP", "EIO"};
+            if(last && nruns > 1)
+                c.s = {"", ""};
+            else
+                c.s = {errs[fl.below(4)], out_root_abs(outv)};
+            p.ops.push_back(c);
+        }
         if(en_heap)
         {
             Op h;
@@ -1630,8 +1824,8 @@ Plan gen_c20(u64 seed, const std::string& tier)
                 for(int k = 0; k < nf; k++)
                 {
                     // pick a point from the enumeration alphabet on this schema's trace
-                    int kind = (int)fl.below(6);
-                    static const int kinds[] = {K_MKDIR, K_OPENW, K_WRITE, K_WRITE, K_CLOSEW, K_READ};
+                    int kind = (int)fl.below(7);
+                    static const int kinds[] = {K_MKDIR, K_OPENW, K_WRITE, K_WRITE, K_CLOSEW, K_READ, K_STAT};
                     kind = kinds[kind];
                     if(!cnt[kind]) continue;
                     EnumPoint e{s, kind, (long)fl.below((u64)cnt[kind]), "", 0};
@@ -1655,6 +1849,7 @@ Plan gen_c20(u64 seed, const std::string& tier)
                         }
                         break;
                     case K_CLOSEW: e.outcome = fl.chance(1, 2) ? "KEEP:EIO" : "DROP:ENOSPC"; break;
+                    case K_STAT: e.outcome = fl.chance(1, 2) ? "EACCES" : "ELOOP"; break;
                     default: e.outcome = fl.chance(1, 2) ? "ERR:EIO" : "SHORT"; e.arg = 1 + (long)fl.below(100); break;
                     }
                     p.ops.push_back(fault_op(e));
@@ -1703,7 +1898,7 @@ Plan gen_c09(u64 seed, const std::string& tier)
     st.s = {s};
     p.ops.push_back(st);
     // swarm: one family of environment configuration dominates a run
-    const int family = (int)fl.below(10);
+    const int family = (int)fl.below(14);
     auto mut = [&](const std::string& name, std::vector<long long> a, std::vector<std::string> extra = {}) {
         Op m;
         m.name = name;
@@ -1779,6 +1974,43 @@ Plan gen_c09(u64 seed, const std::string& tier)
             p.ops.push_back(m);
         }
     }
+    else if(family >= 10 && family <= 12)
+    {
+        // token-level edits of the stored text: reference retargeting, lost attribute, extreme number,
+        // duplicated / lost / swapped line
+        p.set("mode", "token-edit");
+        int n = (int)fl.range(1, 2);
+        for(int i = 0; i < n; i++)
+        {
+            switch(fl.below(8))
+            {
+            case 0:
+            case 1:
+            case 2: mut("mut.retarget", {(long long)fl.below(100000), (long long)fl.below(100000)}); break;
+            case 3: mut("mut.attrdel", {(long long)fl.below(100000)}); break;
+            case 4: mut("mut.extreme", {(long long)fl.below(100000), (long long)fl.below(64)}); break;
+            case 5: mut("mut.linedup", {(long long)fl.below(100000), 0}); break;
+            case 6: mut("mut.linedel", {(long long)fl.below(100000), 0}); break;
+            default: mut("mut.lineswap", {(long long)fl.below(100000), (long long)fl.below(100000)}); break;
+            }
+        }
+    }
+    else if(family == 13)
+    {
+        // the output location is unusable in a way that also makes stat() fail
+        p.set("mode", "unusable-output-dir");
+        static const char* errs[] = {"EACCES", "ENAMETOOLONG", "ELOOP", "EIO", "ENOTDIR"};
+        Op c;
+        c.name = "cond";
+        c.s = {errs[fl.below(5)], fl.chance(1, 2) ? "/sim/out" : "/sim/out2"};
+        p.ops.push_back(c);
+        Op r;
+        r.name = "run";
+        r.s = {s};
+        r.a = {(long)(fl.chance(1, 2) ? fl.below(3) : 3), 0};
+        p.ops.push_back(r);
+        return p;
+    }
     else
     {
         p.set("mode", "argv");
@@ -1844,6 +2076,14 @@ std::vector<Op> shrink_op(const Plan&, const Op& o)
 int main(int argc, char** argv)
 {
     init_real();
+#if !defined(__SANITIZE_ADDRESS__)
+    {
+        // a run that asks for gigabytes must end as std::bad_alloc quickly and identically on every machine
+        struct rlimit rl;
+        rl.rlim_cur = rl.rlim_max = 3ULL << 30;
+        setrlimit(RLIMIT_AS, &rl);
+    }
+#endif
     if(argc >= 2 && std::string(argv[1]) == "info")
     {
         // number of enumerated single-fault points per tier, for the orchestrator
